@@ -14,4 +14,31 @@ TEXT = {
         "note": "float + * / and float64(int) are section variables (oracles) with one contract: float64(int) is finite (validated per case); "
                 "Go float comparison modelled as sign-magnitude order on bit patterns; hand model tied by the harness; no axioms.",
     },
+    "C07": {
+        "engine": "pure",
+        "design_ref": "DESIGN.md section 6, C07",
+        "technique": "Coq proof (nested induction over value trees, pigeonhole on key sets) + differential correspondence check",
+        "text": "veq transcribes the three isEqual methods; C07_spec proves veq a b = true <-> seqP a b (independently defined typed structural equality) "
+                "for all well-formed trees, C07_refl/sym/trans the equivalence on NaN-free data, C07_kinds/length/missing_key the 'false, not panic' clauses. "
+                "The same veq is run against Equals on one-place-edit pairs in both argument orders on every check.",
+        "note": "Go float == modelled as feq on bit patterns; trees have distinct keys (Go maps guarantee it); hand model tied by the harness; no axioms.",
+    },
+    "C14": {
+        "engine": "pure",
+        "design_ref": "DESIGN.md section 6, C14",
+        "technique": "Coq proof (fold/filter/map fusion lemmas, for arbitrary callbacks and enumeration orders) + differential correspondence check",
+        "text": "Every typed/untyped view is transcribed as the loop it is (a fold that logs callback arguments) and proved equal to filter/map/fold over "
+                "exactly the elements of the kind, in index order (C14_*); object variants for every enumeration order (Permutation). All 61 views of the API "
+                "are run against the model on every check with a mirrored callback family.",
+        "note": "callbacks are arbitrary Gallina functions in the theorems, a finite mirrored family in executions; identity of handed-out containers is a harness predicate; no axioms.",
+    },
+    "C17": {
+        "engine": "pure",
+        "design_ref": "DESIGN.md section 6, C17",
+        "technique": "Coq proof (Permutation/StronglySorted for the sort, nth_error invariant for the swap loop) + differential correspondence check",
+        "text": "C17_sort: on non-empty homogeneous string/int/float lists Sort returns a sorted permutation (bit-exact elements), idempotent; C17_sort_reject: "
+                "other first element panics; C17_unique_*: sorted permutations are unique, so any correct sort.* agrees with the model; C17_reverse: the "
+                "n/2-1..0 swap loop equals rev (position i -> n-1-i, involutive). In-place/identity clauses are checked on the implementation.",
+        "note": "sort.* modelled by insertion sort (justified by the uniqueness theorems); list identity (same list returned, mutated in place) is a harness predicate here and a theorem of the heap model in C05; no axioms.",
+    },
 }
